@@ -168,6 +168,8 @@ class Program(object):
         ctx = normalise.package_context(dict((n, (m.tree, dict(m.aliases), set())) for n, m in self.modules.items()))
         ctx['consts'] = dict((n, normalise.module_constants(m.tree)) for n, m in self.modules.items())
         ctx['keep'] = _names_known_to_rules()
+        ctx['keep_funcs'] = _idents_known_to_rules()
+        ctx['xhelpers'] = dict((k, v) for k, v in ctx.get('xhelpers', {}).items() if k[1] not in ctx['keep_funcs'])
         self.normalised = {}
         self.ctx = ctx
         for n, m in self.modules.items():
@@ -311,6 +313,42 @@ class Program(object):
             return fn.attr in N.PURE_METHODS
         return False
 
+    def _ctor_self_only(self, callee):
+        """The constructor (module, 'Class.__init__') writes nothing but attributes of the new object and hands its
+        arguments to nothing but builtins and the standard library."""
+        if not hasattr(self, '_cso'):
+            self._cso = {}
+        if callee in self._cso:
+            return self._cso[callee]
+        ok = False
+        f = self.modules[callee[0]].funcs.get(callee[1]) if callee[0] in self.modules else None
+        if f is not None and f.params:
+            me = f.params[0]
+            ok = True
+            for n in walk_own(f.node):
+                tg = []
+                if isinstance(n, ast.Assign):
+                    tg = list(n.targets)
+                elif isinstance(n, (ast.AugAssign, ast.AnnAssign)):
+                    tg = [n.target]
+                elif isinstance(n, (ast.Delete, ast.Global, ast.Nonlocal, ast.Yield, ast.YieldFrom)):
+                    ok = False
+                for t in tg:
+                    if isinstance(t, ast.Name):
+                        continue
+                    if not (isinstance(t, ast.Attribute) and isinstance(t.value, ast.Name) and t.value.id == me):
+                        ok = False
+                if isinstance(n, ast.Call):
+                    if self.callee(n, f) is not None:
+                        ok = False          # package code
+                    elif isinstance(n.func, ast.Attribute) and root_name(n.func.value) in f.params \
+                            and root_name(n.func.value) != me:
+                        ok = False          # a method of an argument
+                    elif isinstance(n.func, ast.Name) and n.func.id in f.locals:
+                        ok = False
+        self._cso[callee] = ok
+        return ok
+
     def _package_methods(self):
         if not hasattr(self, '_pm'):
             pm = set()
@@ -336,6 +374,9 @@ class Program(object):
                 for sub in ast.walk(root):
                     if not isinstance(sub, ast.Call) or self.pure_call(sub, func):
                         continue
+                    c_ = self.callee(sub, func)
+                    if c_ is not None and c_[1].endswith('.__init__') and self._ctor_self_only(c_):
+                        continue        # a constructor that only fills in the new object
                     if isinstance(sub.func, ast.Name) and sub.func.id not in func.locals \
                             and self.callee(sub, func) is None:
                         continue        # a builtin or a standard-library function: it does not know about node fields
@@ -394,6 +435,25 @@ def _names_known_to_rules():
                         names |= set(re.findall(r'\b[A-Z][A-Z0-9_]{2,}\b', f.read()))
         _KNOWN[0] = names
     return _KNOWN[0]
+
+
+_KNOWN_IDENTS = [None]
+
+
+def _idents_known_to_rules():
+    """Every identifier that occurs in the rule sources (in code or inside strings): functions the rules refer to
+    by name are never inlined away."""
+    if _KNOWN_IDENTS[0] is None:
+        import re
+        names = set()
+        here = os.path.dirname(os.path.abspath(__file__))
+        for d in (here, os.path.join(here, 'rules')):
+            for fn in os.listdir(d):
+                if fn.endswith('.py') and fn != 'normalise.py':
+                    with open(os.path.join(d, fn), encoding='utf-8') as f:
+                        names |= set(re.findall(r'[A-Za-z_][A-Za-z0-9_]*', f.read()))
+        _KNOWN_IDENTS[0] = names
+    return _KNOWN_IDENTS[0]
 
 
 def walk_own(node):
